@@ -168,7 +168,13 @@ def t_indicator(rng, v21):
     d["pattern"] = "[file:name = 'a']"
     d["valid_from"] = T0
     if v21:
-        d["pattern_type"] = "stix"
+        # non-STIX pattern languages are not validated by the library: the class's own constraint code takes another path
+        d["pattern_type"] = rng.choice(["stix", "stix", "stix", "snort", "yara", "pcre"])
+        if d["pattern_type"] != "stix":
+            d["pattern"] = {"snort": "alert tcp any any -> any any (msg:x;)", "yara": "rule r { condition: true }",
+                            "pcre": "/ab+c/"}[d["pattern_type"]]
+        if rng.random() < 0.3:
+            d["valid_until"] = T1
         if rng.random() < 0.5:
             d["indicator_types"] = labels(rng)
         if rng.random() < 0.5:
@@ -229,7 +235,100 @@ def t_marking_definition(rng, v21):
     return d
 
 
-TEMPLATES = [("Identity", t_identity), ("Malware", t_malware), ("Indicator", t_indicator), ("Report", t_report),
+def seen(rng, d):
+    r = rng.random()
+    if r < 0.35:
+        d["first_seen"] = T0
+        d["last_seen"] = rng.choice([T0, T1])
+    elif r < 0.5:
+        d["first_seen"] = T0
+
+
+def t_campaign(rng, v21):
+    d = base(rng, "campaign", v21)
+    d["name"] = "c"
+    seen(rng, d)
+    if rng.random() < 0.4:
+        d["objective"] = rng.choice(["", "obj"])
+    return d
+
+
+def t_intrusion_set(rng, v21):
+    d = base(rng, "intrusion-set", v21)
+    d["name"] = "is"
+    seen(rng, d)
+    if rng.random() < 0.5:
+        d["goals"] = labels(rng)
+    return d
+
+
+def t_threat_actor(rng, v21):
+    d = base(rng, "threat-actor", v21)
+    d["name"] = "ta"
+    if v21:
+        seen(rng, d)
+        if rng.random() < 0.5:
+            d["threat_actor_types"] = labels(rng)
+    else:
+        d["labels"] = labels(rng)
+    if rng.random() < 0.4:
+        d["aliases"] = labels(rng)
+    return d
+
+
+def t_infrastructure(rng, v21):
+    d = base(rng, "infrastructure", True)
+    d["name"] = "inf"
+    seen(rng, d)
+    if rng.random() < 0.5:
+        d["infrastructure_types"] = labels(rng)
+    return d
+
+
+def t_location(rng, v21):
+    d = base(rng, "location", True)
+    r = rng.random()
+    if r < 0.4:
+        d["latitude"] = rng.choice([0.0, 10.5, -33.25])
+        d["longitude"] = rng.choice([0.0, 20.5])
+        if rng.random() < 0.4:
+            d["precision"] = rng.choice([10.0, 2.5])
+    elif r < 0.7:
+        d["region"] = "northern-america"
+    else:
+        d["country"] = "US"
+    if rng.random() < 0.3:
+        d["name"] = rng.choice(["", "loc"])
+    return d
+
+
+def t_malware_analysis(rng, v21):
+    d = base(rng, "malware-analysis", True)
+    d["product"] = "av"
+    if rng.random() < 0.6:
+        d["result"] = "benign"
+    else:
+        d["analysis_sco_refs"] = ["file--" + uuid(rng)]
+    if rng.random() < 0.3:
+        d["modules"] = labels(rng)
+    return d
+
+
+def t_observed_data(rng, v21):
+    d = base(rng, "observed-data", True)
+    d["first_observed"] = T0
+    d["last_observed"] = rng.choice([T0, T1])
+    d["number_observed"] = rng.choice([1, 5])
+    d["object_refs"] = ["file--" + uuid(rng) for _ in range(rng.choice([1, 2]))]
+    return d
+
+
+V21_ONLY = ("Infrastructure", "Location", "MalwareAnalysis", "ObservedData")
+
+TEMPLATES = [("Campaign", t_campaign), ("IntrusionSet", t_intrusion_set), ("ThreatActor", t_threat_actor),
+             ("Infrastructure", t_infrastructure), ("Location", t_location), ("MalwareAnalysis", t_malware_analysis),
+             ("ObservedData", t_observed_data), ("Indicator", t_indicator), ("Indicator", t_indicator),
+             ("Identity", t_identity), ("Malware", t_malware), ("Indicator", t_indicator), ("Report", t_report),
              ("Relationship", t_relationship), ("Sighting", t_sighting), ("MarkingDefinition", t_marking_definition)]
 
 
@@ -237,6 +336,8 @@ def gen_build(rng, how=None, want_markings=True):
     """A build description for the worker (see c07_impl.py)."""
     v21 = rng.random() < 0.6
     cls, tmpl = rng.choice(TEMPLATES)
+    if cls in V21_ONLY:
+        v21 = True
     d = tmpl(rng, v21)
     how = how or rng.choice(["dict", "dict", "parse", "class", "class"])
     is_md = d["type"] == "marking-definition"
@@ -319,7 +420,23 @@ def gen_build(rng, how=None, want_markings=True):
             elif r < 0.5 and how == "dict":
                 gms[0] = dict(gms[0], lang=rng.choice(LANG_MARKINGS), marking_ref=rng.choice(REF_MARKINGS))   # both kinds in one entry
             d["granular_markings"] = gms
-    return {"how": how, "version": "2.1" if v21 else "2.0", "cls": cls, "data": d}
+    # the same container instance at two places (kill_chain_phases=[kcp, kcp]; one dict under two keys)
+    share = []
+    if rng.random() < 0.5:
+        for key, as_obj in (("kill_chain_phases", "KillChainPhase"), ("external_references", "ExternalReference")):
+            l = d.get(key)
+            if isinstance(l, list) and len(l) >= 2 and l[-1] == l[0]:
+                share.append([[key, 0], [key, len(l) - 1], as_obj])
+        if not is_md:
+            for key in ("x_opts", "x_list", "x_a"):
+                if isinstance(d.get(key), (dict, list)) and d[key] and rng.random() < 0.5:
+                    d[key + "_again"] = d[key]
+                    share.append([[key], [key + "_again"], None])
+                    break
+    out = {"how": how, "version": "2.1" if v21 else "2.0", "cls": cls, "data": d}
+    if share:
+        out["share"] = share
+    return out
 
 
 # ---------------------------------------------------------------- value trees (worker dump format)
